@@ -106,7 +106,7 @@ func RunLoaded(i *sut.I, p *gen.Program, o Opts, out Outcome) Outcome {
 	}
 	i.Out.Reset()
 	q, names := p.QueryText()
-	budget := int64(200*rr.Stats.Steps + 20000)
+	budget := rr.Stats.RealBudget()
 	out.Real = i.Query(q, names, o.MaxAnswers, budget)
 	out.Real.Output = i.Out.String()
 	out.Err = Compare(rr, out.Real, o.CompareOutput)
